@@ -186,7 +186,8 @@ def build_corpus():
                 rp = c.get("replay") or {}
                 if rp.get("kind") == "failing-input":
                     for line in rp.get("cases", []):
-                        if len(line) < 6000:
+                        # op 703 is a recorded concurrent trace (judged as data, whatever the tree): not an input
+                        if len(line) < 6000 and not line.startswith("703 "):
                             cases.setdefault(prop, []).append((e["id"], line))
     os.makedirs(os.path.join(ROOT, "corpus"), exist_ok=True)
     for prop, items in cases.items():
